@@ -128,6 +128,10 @@ def build_ops(names, scen, seed):  # noqa: C901
         'accessors': lambda: canon(c['spec'].accessors()),
         'compose': lambda: canon((c['spec'].compose(c['rspec']), c['spec'].broadcast_to_common_suffix(c['spec2']))),
         'flatten_up_to': lambda: canon(c['spec'].flatten_up_to(c['tree'])),
+        'traverse': lambda: canon(c['spec'].traverse(list(c['leaves']), c15.ticking('f_node'), c15.ticking('f_leaf'))),
+        'transform': lambda: canon(c['spec'].transform(c15.ticking('f_node'), c15.ticking('f_leaf'))),
+        'from_collection': lambda: canon(optree.treespec_from_collection(c['speccoll'], namespace=c['ns'])),
+        'paths-children': lambda: canon((c['spec'].paths(), c['spec'].children(), c['spec'].entries(), c['rspec'].one_level())),
         'reg-nt': lambda: reg(T['NT'], NSC),
         'reg-meta': lambda: reg(T['TC'], NSC),
         'unreg': lambda: unreg(T['P'], NSC),
@@ -179,7 +183,7 @@ def cleanup(c):
                 pass
 
 
-PURE = ('flatten', 'flatten_with_path', 'iter', 'map', 'map-leaves', 'unflatten', 'eq', 'hash', 'repr', 'pickle', 'accessors', 'compose', 'flatten_up_to', 'classify')
+PURE = ('flatten', 'flatten_with_path', 'iter', 'map', 'map-leaves', 'traverse', 'transform', 'from_collection', 'paths-children', 'unflatten', 'eq', 'hash', 'repr', 'pickle', 'accessors', 'compose', 'flatten_up_to', 'classify')
 REGS = ('reg-nt', 'reg-meta', 'unreg')
 
 
@@ -520,5 +524,5 @@ def finalize(sink, tier, seed):
     sink.require('schedules', 1000)
     sink.require('stress-runs')
     sink.require('shared-iter-both-consumed')
-    for site in ('pred', 'flatten', 'unflatten', 'f', 'key.__hash__', 'key.__eq__', 'key.__lt__', 'key.__repr__', 'meta.__eq__', 'entry.__init__', 'metaclass.__getattr__', 'warnings.showwarning'):
+    for site in ('pred', 'flatten', 'unflatten', 'f', 'f_node', 'f_leaf', 'key.__hash__', 'key.__eq__', 'key.__lt__', 'key.__repr__', 'meta.__eq__', 'entry.__init__', 'metaclass.__getattr__', 'warnings.showwarning'):
         sink.require(f'parked-at:{site}')
